@@ -126,8 +126,29 @@ def install():
             return _orig_str(self)
         return _orig_repr(self)
 
+    def _format(self, spec):
+        if OPAQUE_REPR[0]:
+            return "<symint>"
+        if _orig_format is not None:
+            return _orig_format(self, spec)
+        return format(realize(self), spec)
+
     SymbolicInt.__repr__ = _repr
     SymbolicInt.__str__ = _str
+    SymbolicInt.__format__ = _format
+
+    # builtin format()/f-strings: CrossHair's patch deep-realises the operand first
+    _ch_format = core._PATCH_REGISTRATIONS.get(format)
+
+    def _patched_format(obj, format_spec=""):
+        if OPAQUE_REPR[0]:
+            with NoTracing():
+                if isinstance(obj, SymbolicInt):
+                    return "<symint>"
+        return _ch_format(obj, format_spec)
+
+    if _ch_format is not None:
+        core._PATCH_REGISTRATIONS[format] = _patched_format
 
 
 # ---------------------------------------------------------------------------------------------
@@ -185,9 +206,8 @@ def model_unpack(fmt, data):
             v = v + data[pos + k] * (1 << (8 * k))
         pos += n
         if ch in "bhilq":
-            lim = 1 << (8 * n - 1)
-            if v >= lim:
-                v = v - (1 << (8 * n))
+            # branch-free two's complement (a comparison would fork the path per field)
+            v = v - (1 << (8 * n)) * (v // (1 << (8 * n - 1)))
         out.append(v)
     return tuple(out)
 
@@ -221,6 +241,22 @@ def model_pack(fmt, *vals):
         for k in range(n):
             out.append((v // (1 << (8 * k))) % 256)
     return mkbytes(out)
+
+
+def concretise(chunk):
+    """a chunk whose elements are all concrete becomes real bytes, so that C-level behaviour (decode, float())
+    is the interpreter's own and not CrossHair's model of it"""
+    try:
+        from crosshair.tracers import NoTracing, is_tracing
+    except ImportError:
+        return chunk
+    if not is_tracing():
+        return chunk
+    with NoTracing():
+        inner = getattr(chunk, "inner", None)
+        if isinstance(inner, list) and all(type(x) is int for x in inner):
+            return bytes(inner)
+    return chunk
 
 
 class _StructShim:
@@ -292,7 +328,7 @@ class SymReader:
             end = len(self.data)
         chunk = self.data[self.pos:end]
         self.pos = end
-        return chunk
+        return concretise(chunk)
 
     def tell(self):
         return self.pos
